@@ -18,6 +18,8 @@ while i < len(args):
     elif a != "--suite": ids.append(a)
     i += 1
 ok = True
+RES = os.path.join(ROOT, "mutations", "results.json")
+results = json.load(open(RES)) if os.path.exists(RES) else {}
 for m in muts:
     if ids and m["id"] not in ids and m["property"] not in ids:
         continue
@@ -33,9 +35,11 @@ for m in muts:
             print(f"{m['id']}: PATCH DOES NOT APPLY"); ok = False; continue
         open(p, "w").write(m.get("extra_import", "") + s.replace(m["old"], m["new"], 1))
         line = f"{m['id']} ({m['property']}):"
+        rec = results.setdefault(m["id"], {})
         if suite:
             r = subprocess.run([os.path.join(ROOT, "tools", "suite.py"), d], capture_output=True, text=True)
             line += " suite=" + ("green" if r.returncode == 0 else "RED")
+            rec["suite"] = "green" if r.returncode == 0 else "RED (caught by the suite)"
         for sd in seeds:
             env = dict(os.environ, COLA_SRC=d, VERIF_SEED=sd)
             r = subprocess.run([os.path.join(ROOT, "check"), m["property"], "--tier", tier, "--no-evidence"], env=env,
@@ -43,10 +47,12 @@ for m in muts:
             hit = "VIOLATION" in r.stdout
             nk = [l for l in r.stdout.splitlines() if l.startswith(m["property"] + " tier=")]
             line += f" seed{sd}:" + ("DETECTED" if hit else f"MISSED(rc={r.returncode})")
+            rec["check"] = ("detected" if hit else "MISSED") if rec.get("check") != "MISSED" or hit else "MISSED"
             if not hit: ok = False
             if r.returncode == 2: line += " HARNESS-ERROR " + r.stdout[-300:]
         print(line, flush=True)
     finally:
         shutil.rmtree(d, ignore_errors=True)
         shutil.rmtree(os.path.join(ROOT, "replays", m["property"]), ignore_errors=True)
+json.dump(results, open(RES, "w"), indent=1, sort_keys=True)
 sys.exit(0 if ok else 1)
